@@ -553,7 +553,7 @@ def install(E):
             n = E.copy_bound
             cs = [a.len == b.len]
             g0 = E.guard
-            E.oblige("bound", z3.ULE(a.len, bv(n)), oid="bytes.Equal-len@%s" % ins.get("pos", ""))
+            E.oblige("bound", Or(a.len != b.len, z3.ULE(a.len, bv(n)), z3.ULE(b.len, bv(n))), oid="bytes.Equal-len@%s" % ins.get("pos", ""))
             for i in range(n):
                 inb = And(z3.ULT(bv(i), a.len), a.len == b.len)
                 E.guard = And(g0, inb)
@@ -600,6 +600,7 @@ def install(E):
         E.oblige("panic", FALSE, oid="os.Exit@%s" % ins.get("pos", ""), pos=ins.get("pos", ""))
         E.guard = FALSE
         E.narrows += 1
+        E.kills += 1
         return None
     I["os.Exit"] = os_exit
 
